@@ -129,6 +129,11 @@ class Emit:
             if t.w == 1: return 'unsigned char'
             if t.w in (8,16,32,64): return 'uint%d_t' % t.w
             if t.w == 128: return 'unsigned __int128'
+            # odd widths (i24, i48 ...: small structs returned in registers): next power-of-two carrier,
+            # loads/stores move exactly ceil(w/8) bytes
+            for cw in (8, 16, 32, 64):
+                if t.w < cw: return 'uint%d_t' % cw
+            if t.w < 128: return 'unsigned __int128'
             raise Err('int width %d' % t.w)
         if k == 'void': return 'void'
         if k == 'fp': return 'float' if t.name == 'float' else 'double'
@@ -388,10 +393,18 @@ class FnEmit:
             else: s.out.append('  *%s = (%s)(*%s %s %s);' % (a, s.E.ct(t), a, co[aop], v))
         elif op == 'load':
             p.eat('atomic'); p.eat('volatile'); t = p.type(); p.expect(','); pt = p.type(); a = s.val(p, pt)
-            s.setreg(reg, t, '*%s' % a)
+            if t.k == 'int' and t.w not in (1,8,16,32,64,128):
+                s.setreg(reg, t, '0'); s.out.append('  memcpy(&r_%s, %s, %d);' % (cname(reg), a, (t.w + 7) // 8))
+            else:
+                s.setreg(reg, t, '*%s' % a)
         elif op == 'store':
             p.eat('atomic'); p.eat('volatile'); t = p.type(); v = s.val(p, t); p.expect(','); pt = p.type(); a = s.val(p, pt)
-            s.out.append('  *%s = %s;' % (a, v))
+            if t.k == 'int' and t.w not in (1,8,16,32,64,128):
+                s.tmp += 1
+                s.decl.append('%s st_tmp%d;' % (E.ct(t), s.tmp))
+                s.out.append('  st_tmp%d = %s; memcpy(%s, &st_tmp%d, %d);' % (s.tmp, v, a, s.tmp, (t.w + 7) // 8))
+            else:
+                s.out.append('  *%s = %s;' % (a, v))
         elif op == 'getelementptr':
             p.eat('inbounds'); bt = p.type(); p.expect(','); pt = p.type(); base = s.val(p, pt)
             idx = []
@@ -403,6 +416,7 @@ class FnEmit:
             ft = p.type(); v = s.val(p, ft); p.expect('to'); tt = p.type()
             if op == 'sext': e = '((%s)%s)' % (E.ct(tt), s.sx(ft, v))
             elif op == 'trunc' and tt.w == 1: e = '(%s & 1)' % v
+            elif op == 'trunc' and tt.w not in (8,16,32,64,128): e = '((%s)(%s & %dULL))' % (E.ct(tt), v, (1 << tt.w) - 1)
             else: e = '((%s)%s)' % (E.ct(tt), v)
             s.setreg(reg, tt, e)
         elif op in ('add','sub','mul','udiv','sdiv','urem','srem','and','or','xor','shl','lshr','ashr'):
@@ -605,6 +619,7 @@ def main():
         except Err: continue
         init = p.peek()
         st = 'static ' if re.search(r'= (private|internal) ', ln) else ''
+        if mm.group(2) == 'constant': st += 'const '   # dfcc havocs non-const statics (v-tables, literals)
         ext = re.search(r'= external ', ln) is not None
         if init and init.startswith('c"'):
             raw = init[2:-1]
@@ -615,7 +630,7 @@ def main():
                 else: vals.append(ord(raw[i])); i += 1
             gl.append('%s%s %s = {{%s}};' % (st, E.ct(t), cname(g), ','.join(map(str, vals))))
         elif init in ('zeroinitializer', None) or ext:
-            try: gl.append('%s%s %s;' % ('extern ' if ext else st, E.ct(t), cname(g)))
+            try: gl.append('%s%s %s;' % (('extern ' + ('const ' if mm.group(2) == 'constant' else '')) if ext else st, E.ct(t), cname(g)))
             except Err: pass
         else:
             try:
